@@ -25,7 +25,15 @@ void gen_case(std::vector<size_t> mult) {
   auto &E = Engine::get();
   size_t c = mult.size(), m = 0;
   for (auto q : mult) m += q;
+#ifdef FIXED_KNOTS
+  // high orders: distinct knot values are fixed irregular rationals (a symbolic knot raised to the 10th power is out of
+  // reach for nlsat); x, and therefore every polynomial identity, stays symbolic
+  static const long long NUM[] = {-7, -1, 0, 2, 1, 9, 3, 11, 7, 8, 10, 45, 13, 29, 17}, DEN[] = {3, 2, 1, 5, 1, 4, 1, 2, 1, 1, 1, 4, 1, 2, 1};
+  std::vector<Real> v;
+  for (size_t j = 0; j < c; j++) v.push_back(Real::frac(NUM[j], DEN[j]));
+#else
   auto v = gridvars(c, "v");
+#endif
   std::vector<Real> t;
   std::vector<int> cls;
   for (size_t j = 0; j < c; j++)
@@ -137,9 +145,12 @@ static void compositions(size_t m, std::vector<size_t> &cur, std::vector<std::ve
     cur.pop_back();
   }
 }
+#ifndef MINP
+#define MINP 0
+#endif
 template <size_t p>
 void add(std::vector<Case> &cases) {
-  for (size_t m = 2; m <= p + EXTRA; m++) {
+  for (size_t m = (MINP > 0 ? p : 2); m <= p + EXTRA; m++) {
     std::vector<std::vector<size_t>> comps;
     std::vector<size_t> cur;
     compositions(m, cur, comps);
@@ -149,6 +160,6 @@ void add(std::vector<Case> &cases) {
       cases.push_back({id, [=] { gen_case<p>(mult); }});
     }
   }
-  if constexpr (p > 0) add<p - 1>(cases);
+  if constexpr (p > MINP) add<p - 1>(cases);
 }
 void hx_cases(std::vector<Case> &cases) { add<MAXP>(cases); }
